@@ -1019,7 +1019,7 @@ def fixed_histories():
 
 
 def plan(tier, verif_seed):
-    n = 400 if tier == 'quick' else 6000
+    n = 400 if tier == 'quick' else 4000
     n = int(os.environ.get('VERIF_C15_RUNS', n))
     chunk = 5 if tier == 'quick' else 25
     seeds = [core.H(verif_seed, 'C15', j) for j in range(n)]
